@@ -46,6 +46,8 @@ def load_units():
 
 def serves(u, prop):
     s = set(u.get("properties", [])) | set(u.get("safety_properties", [])) | set(u.get("also_serves", []))
+    for v in list(u.get("ob_props", {}).values()) + list(u.get("safety_overrides", {}).values()):
+        s |= set(v)
     return prop in s
 
 
